@@ -176,7 +176,16 @@ func init() {
 			note(ez.bad)
 		}
 		// services
-		svcMode := c.Choose("services", 5) // 0: Svc, 1: Svc + Other, 2: Svc twice, 3: Svc by name not found, 4: Svc twice from two descriptor instances
+		svcMode := c.Choose("services", 6) // 0: Svc, 1: Svc + Other, 2: Svc twice, 3: Svc by name not found, 4: Svc twice from two descriptor instances, 5: only Other (one method in total: the bare "*" selector names exactly one method)
+		present := func(m string) bool {
+			switch svcMode {
+			case 1:
+				return true
+			case 5:
+				return strings.HasPrefix(m, "Other.")
+			}
+			return !strings.HasPrefix(m, "Other.")
+		}
 		// the second service may carry options of its own (isolation between services)
 		op, oc, oz := sp, sc, sz
 		otherOwn := false
@@ -220,7 +229,7 @@ func init() {
 				note("nested additional bindings")
 			}
 			for _, m := range r.sel.binds {
-				if svcMode != 1 && strings.HasPrefix(m, "Other.") {
+				if !present(m) {
 					continue
 				}
 				bound[m] = append(bound[m], r.pat)
@@ -234,7 +243,7 @@ func init() {
 			if r.sel.bad == "" {
 				n := 0
 				for _, m := range r.sel.binds {
-					if svcMode == 1 || !strings.HasPrefix(m, "Other.") {
+					if present(m) {
 						n++
 					}
 				}
@@ -255,7 +264,7 @@ func init() {
 		case 3:
 			note("service not found")
 		}
-		restOnlyOther := restOnly
+		restOnlyOther := restOnly // (services=5: the only service carries the per-service options)
 		if eo := pick(dp, op); svcMode == 1 && otherOwn {
 			restOnlyOther = eo.name != "unset" && len(eo.proto) == 1 && eo.proto[0] == vanguard.ProtocolREST
 		}
@@ -269,10 +278,10 @@ func init() {
 					hasO = true
 				}
 			}
-			if restOnly && !has {
+			if restOnly && !has && svcMode != 5 {
 				note("REST-only service without bindings")
 			}
-			if svcMode == 1 && restOnlyOther && !hasO {
+			if (svcMode == 1 || svcMode == 5) && restOnlyOther && !hasO {
 				note("REST-only service without bindings")
 			}
 		}
@@ -297,6 +306,9 @@ func init() {
 		dopts = append(dopts, dc.opts...)
 		dopts = append(dopts, dz.opts...)
 		services := []*vanguard.Service{vanguard.NewServiceWithSchema(svc, handler, sopts...)}
+		if svcMode == 5 {
+			services = []*vanguard.Service{vanguard.NewServiceWithSchema(other, handler, sopts...)}
+		}
 		switch svcMode {
 		case 1:
 			var oopts []vanguard.ServiceOption
@@ -535,6 +547,10 @@ func init() {
 			}
 		}
 		p1, c1, z1 := eff(dp, sp, dc, sc, dz, sz)
+		if svcMode == 5 {
+			probe("Other", "Get", p1, c1, z1)
+			return
+		}
 		if !probe("Svc", "Get", p1, c1, z1) {
 			return
 		}
